@@ -1,0 +1,52 @@
+//! Verification hooks.  Only compiled with `--cfg rescrv_blue_verif`.
+//!
+//! The flush loop and the compaction loop are infinite loops that park on condition variables.
+//! A verification harness needs to run exactly one iteration of either loop on a thread of its
+//! choosing, and to release threads that run the loops for real.  Nothing here changes what an
+//! iteration does.
+
+use std::cell::Cell;
+use std::sync::atomic::{AtomicBool, Ordering};
+
+/// How the loops behave on the calling thread.
+#[derive(Clone, Copy, Debug, Eq, PartialEq)]
+pub enum StepMode {
+    /// Unchanged behaviour:  loop forever (unless a stop was requested).
+    Off,
+    /// Return instead of parking when there is nothing to do; return after one iteration.
+    StepNoWait,
+    /// Park as usual when there is nothing to do; return after one iteration.
+    StepWait,
+}
+
+thread_local! {
+    static MODE: Cell<StepMode> = const { Cell::new(StepMode::Off) };
+    static STEPS: Cell<u64> = const { Cell::new(0) };
+}
+
+static STOP: AtomicBool = AtomicBool::new(false);
+
+/// Set the step mode for loops run by the calling thread.
+pub fn set_step_mode(mode: StepMode) {
+    MODE.with(|m| m.set(mode));
+}
+
+/// The number of loop iterations completed by the calling thread since the thread began.
+pub fn steps_completed() -> u64 {
+    STEPS.with(|s| s.get())
+}
+
+/// Ask every loop in the process to return the next time it would park or complete an iteration.
+/// Follow with `verif_wake_all` on the store so parked threads notice.
+pub fn request_stop(stop: bool) {
+    STOP.store(stop, Ordering::SeqCst);
+}
+
+pub(crate) fn return_when_idle() -> bool {
+    STOP.load(Ordering::SeqCst) || MODE.with(|m| m.get()) == StepMode::StepNoWait
+}
+
+pub(crate) fn return_after_step() -> bool {
+    STEPS.with(|s| s.set(s.get() + 1));
+    STOP.load(Ordering::SeqCst) || MODE.with(|m| m.get()) != StepMode::Off
+}
